@@ -127,6 +127,12 @@ def header_payload_cursor(ctx, rule, key_prefix, hdr):
     adv = ru.need(ctx, rule, key_prefix + "advance")
     if not adv:
         return
+    # the three methods evaluated below ARE the cursor: every other `Buf` method has to stay the provided one, which is defined in
+    # terms of them (an overriding `has_remaining` / `copy_to_bytes` / `chunks_vectored` is a second, unexamined cursor)
+    over = sorted(b.key[len(key_prefix):] for b in prog.bodies if b.key.startswith(key_prefix) and "::{closure" not in b.key[len(key_prefix):])
+    ctx.check(set(over) <= {"advance", "chunk", "remaining"}, rule, key_prefix.rstrip(":"), "only remaining / chunk / advance are implemented by hand",
+              "the Buf implementation also overrides %s: the transport's write loop may ask that method instead of the three that were "
+              "evaluated, and nothing ties its answer to them" % [m for m in over if m not in ("advance", "chunk", "remaining")], str(over))
     ps = [p for p in ru.all_paths(ctx, rule, adv) if p.end == "return"]
     bad = []
     nstate = 0
@@ -324,6 +330,31 @@ def bufrecv_poll_data(ctx, rule):
                       "", None, p.describe())
     ctx.floor(rule, "end-of-stream paths of BufRecvStream::poll_data", n_end, 1)
     ctx.floor(rule, "transport-polling paths of BufRecvStream::poll_data", n_poll, 3)
+
+
+def push_bytes_takes_everything(ctx, rule):
+    """BufList::push_bytes moves the WHOLE transport buffer into the receive buffer: the amount copied is remaining() of that
+    buffer (a `Buf` may hold several chunks; chunk().len() is only the first), and what is stored is that copy."""
+    b = ru.need(ctx, rule, "h3::buf::BufList::push_bytes")
+    if not b:
+        return
+    n = 0
+    for p in [p for p in ru.all_paths(ctx, rule, b, max_visits=1) if p.end == "return"]:
+        cp = p.calls("copy_to_bytes")
+        pb = p.calls("push_back")
+        if not cp and not pb:
+            continue
+        n += 1
+        ok = len(cp) == 1 and len(pb) == 1 and len(cp[0][3]) == 2 and cp[0][3][1][0] == "call" and pa.short(cp[0][3][1][1]) == "remaining" and \
+            cp[0][3][1][2] and cp[0][3][1][2][0] == cp[0][3][0] and cp[0][3][0] == ("param", 2, ()) and \
+            len(pb[0][3]) == 2 and pb[0][3][1][0] == "call" and pb[0][3][1][3] == cp[0][1]
+        ctx.check(ok, rule, b.key, "the whole transport buffer is stored: copy_to_bytes(buf.remaining())",
+                  "push_bytes stores %s: with a transport whose buffers are not contiguous everything behind the first chunk is dropped and "
+                  "the frame boundaries behind it are lost" % ([pa.vfmt(e[3][1])[:60] for e in cp] or "nothing"), "", None, p.describe())
+    ctx.floor(rule, "storing paths of push_bytes", n, 1)
+    callers = sorted({c.key for c, bb, t in ctx.prog.callers_of("h3::buf::BufList::push_bytes")})
+    ctx.check(callers == ["h3::stream::BufRecvStream::poll_read"], rule, "h3::buf::BufList::push_bytes", "who may call",
+              "the receive buffer is filled from %s" % callers, str(callers))
 
 
 _REG = None
